@@ -194,7 +194,7 @@ func TestVerifC21HTTPRelay(t *testing.T) {
 
 	m := &MockStore{leaderAddr: lsvc.Addr()}
 	m.backupFn = func(br *command.BackupRequest, dst io.Writer) error { return store.ErrNotLeader }
-	c := &c21RealCluster{mockClusterService: &mockClusterService{apiAddr: "http://leader:4001"}, cl: cluster.NewClient(c21Dialer{}, 5*time.Second)}
+	c := &c21RealCluster{mockClusterService: &mockClusterService{apiAddr: "http://leader:4001"}, cl: cluster.NewClient(c21Dialer{}, 60*time.Second)}
 	s := New("127.0.0.1:0", m, c, proxy.New(m, c), nil)
 	if err := s.Start(); err != nil {
 		t.Fatalf("start: %v", err)
@@ -220,7 +220,7 @@ func TestVerifC21HTTPRelay(t *testing.T) {
 			// (a fresh inter-node client per request: after a failed transfer the pooled connection
 			// is dead on the leader's side and the next request on it fails once with a broken pipe —
 			// reported as an error, so not this property's concern)
-			c.cl = cluster.NewClient(c21Dialer{}, 5*time.Second)
+			c.cl = cluster.NewClient(c21Dialer{}, 60*time.Second)
 			url := host + "/db/backup"
 			if compress {
 				url += "?compress"
